@@ -25,6 +25,13 @@ pub const SHORT_TIMEOUT_MS: u64 = 120;
 pub enum After {
     VSubmits,
     PeerSubmits,
+    /// as above, and once the new handshake is complete, datagrams of the peer from before the idle
+    /// period are presented again (this costs V its new session: an undecryptable message drops it)
+    VSubmitsThenStale,
+    PeerSubmitsThenStale,
+    /// V submits, the exchange runs until V has sent its handshake packet (V holds the new session
+    /// from then on) and that packet and everything after it is lost
+    VSubmitsHandshakeLost,
 }
 
 #[derive(Clone, Copy, Debug, PartialEq, Eq, Hash, Serialize, Deserialize)]
@@ -63,6 +70,20 @@ async fn deliver_all(w: &mut World, rep: &mut CaseReport, cap: usize) -> Option<
     None
 }
 
+/// Did V, since event index `from`, deliver a message of peer p or report a session with it? Then
+/// the cache entry of that session was written or refreshed in the meantime.
+fn touched_since(w: &World, from: usize, p: usize) -> bool {
+    let addr = w.nodes[p].addr;
+    w.events[from..].iter().any(|e| {
+        e.node == 0
+            && match &e.out {
+                HandlerOut::Request(a, _) | HandlerOut::Response(a, _) => a.socket_addr == addr,
+                HandlerOut::Established(_, s, _) => *s == addr,
+                _ => false,
+            }
+    })
+}
+
 fn check_capacity(w: &World, cap: usize) -> Option<(String, String)> {
     let n = w.snaps[0].sessions.len();
     if n > cap {
@@ -93,13 +114,30 @@ async fn run(case: &Case, rep: &mut CaseReport) -> Option<(String, String)> {
     // ledger: last use per peer (op index) and wall-clock instant after the op that touched it
     let mut last_use: HashMap<usize, usize> = HashMap::new();
     let mut last_touch: HashMap<usize, Instant> = HashMap::new();
+    // wall-clock instant BEFORE the last op that touched the session with a peer: the cache's time
+    // stamp of that session is not older than this
+    let mut touch_start: HashMap<usize, Instant> = HashMap::new();
+    // peers with an exchange cut short: virtual time of the cut. Once timers may have fired since
+    // (retransmission, request timeout -> session failure) such a peer's session is no longer judged.
+    let mut cut_at: HashMap<usize, u64> = HashMap::new();
+    let mut limbo: std::collections::HashSet<usize> = std::collections::HashSet::new();
     let mut long_idles = 0;
     for (opi, op) in case.ops.iter().enumerate() {
         let before: Vec<usize> = w.snaps[0].sessions.iter().filter_map(|s| w.node_by_addr(&s.addr.socket_addr)).collect();
+        for (q, t) in &cut_at {
+            if w.now_ms().saturating_sub(*t) >= REQUEST_TIMEOUT_MS / 2 {
+                limbo.insert(*q);
+            }
+        }
         match *op {
             COp::ExchangeOut(p) | COp::ExchangeIn(p) => {
                 let p = 1 + (p as usize % n_peers as usize);
                 let (from, to) = if matches!(op, COp::ExchangeOut(_)) { (0u8, p as u8) } else { (p as u8, 0u8) };
+                let op_start = Instant::now();
+                let ev_start = w.events.len();
+                if cut_at.contains_key(&p) {
+                    limbo.insert(p);
+                }
                 act(&mut w, &Op::Submit { from, to, body: Body::Ping, with_record: true });
                 w.settle().await;
                 w.step += 1;
@@ -114,6 +152,45 @@ async fn run(case: &Case, rep: &mut CaseReport) -> Option<(String, String)> {
                         "sessions/most-recently-used-session-missing".into(),
                         format!("after a complete exchange with peer {p} V holds no session with it (sessions before {before:?}, after {after:?}, capacity {cap})"),
                     ));
+                }
+                if case.short_timeout {
+                    // X3 in the expiry regime: sessions may vanish because they expired. One that is
+                    // CERTAINLY not expired (less than the timeout of real time has passed since
+                    // before the last op that touched it) can only have been dropped to make room,
+                    // and then it must have been the least recently used one.
+                    let timeout = Duration::from_millis(SHORT_TIMEOUT_MS);
+                    for (q, t) in &cut_at {
+                        if w.now_ms().saturating_sub(*t) >= REQUEST_TIMEOUT_MS / 2 {
+                            limbo.insert(*q);
+                        }
+                    }
+                    let fresh_gone: Vec<usize> =
+                        gone.iter().copied().filter(|g| !limbo.contains(g) && touch_start.get(g).map(|t| t.elapsed() < timeout).unwrap_or(false)).collect();
+                    if !fresh_gone.is_empty() {
+                        rep.class("expiry-regime/unexpired-session-dropped-for-capacity");
+                        rep.nontrivial = true;
+                        if before.contains(&p) || after.len() < cap || fresh_gone.len() > 1 {
+                            return Some((
+                                "sessions/session-lost-without-capacity-pressure".into(),
+                                format!("sessions of peers {fresh_gone:?} (certainly not expired) disappeared during an exchange with peer {p} (before {before:?}, after {after:?}, capacity {cap})"),
+                            ));
+                        }
+                        let g = fresh_gone[0];
+                        let g_use = last_use.get(&g).copied().unwrap_or(0);
+                        if let Some(older) = after.iter().copied().filter(|a| *a != p && !limbo.contains(a)).find(|a| last_use.get(a).copied().unwrap_or(0) < g_use) {
+                            return Some((
+                                "sessions/evicted-not-least-recently-used".into(),
+                                format!("cache full ({cap}); establishing a session with peer {p} dropped the unexpired session of peer {g} (last used at op {g_use}) while the session of peer {older} (last used at op {}) was kept", last_use.get(&older).copied().unwrap_or(0)),
+                            ));
+                        }
+                    }
+                    // a complete exchange that took less than half the timeout leaves a session with p
+                    if op_start.elapsed() < timeout / 2 && !after.contains(&p) && !cut_at.contains_key(&p) {
+                        return Some((
+                            "sessions/most-recently-used-session-missing".into(),
+                            format!("after a complete exchange with peer {p} that took {:?} V holds no session with it (before {before:?}, after {after:?}, capacity {cap})", op_start.elapsed()),
+                        ));
+                    }
                 }
                 if !case.short_timeout && !gone.is_empty() {
                     if before.len() == cap && !before.contains(&p) && after.contains(&p) {
@@ -139,8 +216,13 @@ async fn run(case: &Case, rep: &mut CaseReport) -> Option<(String, String)> {
                         ));
                     }
                 }
-                last_use.insert(p, opi + 1);
                 last_touch.insert(p, Instant::now());
+                if touched_since(&w, ev_start, p) {
+                    last_use.insert(p, opi + 1);
+                    touch_start.insert(p, op_start);
+                } else {
+                    limbo.insert(p);
+                }
             }
             COp::IdleLong(p, then) => {
                 if !case.short_timeout || long_idles >= 2 {
@@ -151,6 +233,9 @@ async fn run(case: &Case, rep: &mut CaseReport) -> Option<(String, String)> {
                 let Some(sess) = w.snaps[0].sessions.iter().find(|s| s.addr.socket_addr == w.nodes[p].addr).cloned() else { continue };
                 let Some(t0) = last_touch.get(&p).copied() else { continue };
                 long_idles += 1;
+                if cut_at.contains_key(&p) {
+                    limbo.insert(p);
+                }
                 let need = Duration::from_millis(SHORT_TIMEOUT_MS * 13 / 10 + 5);
                 while t0.elapsed() <= need {
                     std::thread::sleep(Duration::from_millis(5));
@@ -166,8 +251,17 @@ async fn run(case: &Case, rep: &mut CaseReport) -> Option<(String, String)> {
                 };
                 let log_before = w.log.len();
                 let ev_before = w.events.len();
+                let op_start = Instant::now();
+                // keys under which V decrypted the peer's messages before the idle period
+                let old_dec_keys: Vec<[u8; 16]> = {
+                    let mut v = vec![sess.keys.1];
+                    if let Some(o) = sess.old_keys {
+                        v.push(o.1);
+                    }
+                    v
+                };
                 match then {
-                    After::VSubmits => {
+                    After::VSubmits | After::VSubmitsThenStale | After::VSubmitsHandshakeLost => {
                         act(&mut w, &Op::Submit { from: 0, to: p as u8, body: Body::Ping, with_record: true });
                         w.settle().await;
                         w.step += 1;
@@ -187,8 +281,32 @@ async fn run(case: &Case, rep: &mut CaseReport) -> Option<(String, String)> {
                                 }
                             }
                         }
+                        if then == After::VSubmitsHandshakeLost {
+                            let mut guard = 0;
+                            loop {
+                                let hs = w.pool.iter().any(|i| w.log[*i].from_node == Some(0) && matches!(w.log[*i].decoded.as_ref().map(|d| &d.0.kind), Some(PacketKind::Handshake { .. })));
+                                if hs || w.pool.is_empty() || guard > 20 {
+                                    break;
+                                }
+                                guard += 1;
+                                let idx = w.pool.remove(0);
+                                w.deliver_logged(idx);
+                                w.settle().await;
+                                w.step += 1;
+                            }
+                            w.pool.clear();
+                            cut_at.insert(p, w.now_ms());
+                            // V is expected to hold a session with p under new keys now; if not, p's
+                            // session is not judged any more
+                            let rekeyed = w.snaps[0].sessions.iter().any(|s| s.addr.socket_addr == w.nodes[p].addr && s.keys.0 != sess.keys.0);
+                            if rekeyed {
+                                rep.class("handshake-sent-and-lost(V holds the new session, peer never answers)");
+                            } else {
+                                limbo.insert(p);
+                            }
+                        }
                     }
-                    After::PeerSubmits => {
+                    After::PeerSubmits | After::PeerSubmitsThenStale => {
                         act(&mut w, &Op::Submit { from: p as u8, to: 0, body: Body::Ping, with_record: true });
                         w.settle().await;
                         w.step += 1;
@@ -220,9 +338,57 @@ async fn run(case: &Case, rep: &mut CaseReport) -> Option<(String, String)> {
                 if let Some(v) = deliver_all(&mut w, rep, cap).await {
                     return Some(v);
                 }
-                last_use.insert(p, opi + 1);
+                // X1b: the new handshake is complete. A request of the peer that was encrypted under the
+                // EXPIRED session (a datagram from before the idle period, presented again) must still
+                // not be accepted: the timed-out keys are gone for good.
+                let stale: Vec<usize> = (0..log_before)
+                    .filter(|i| {
+                        let d = &w.log[*i];
+                        d.from_node == Some(p) && d.to_addr == w.nodes[0].addr && matches!(decrypt(d, &old_dec_keys), Some((Message::Request(_), _)))
+                    })
+                    .rev()
+                    .take(if matches!(then, After::VSubmitsThenStale | After::PeerSubmitsThenStale) { 2 } else { 0 })
+                    .collect();
+                for idx in stale {
+                    let ev0 = w.events.len();
+                    w.deliver_logged(idx);
+                    w.settle().await;
+                    w.step += 1;
+                    for e in &w.events[ev0..] {
+                        if e.node == 0 {
+                            if let HandlerOut::Request(a, r) = &e.out {
+                                if a.socket_addr == w.nodes[p].addr {
+                                    return Some((
+                                        "sessions/expired-session-keys-accepted-after-rehandshake".into(),
+                                        format!("the session with peer {p} timed out (measured idle {:?} > {SHORT_TIMEOUT_MS} ms) and a new handshake completed; V then accepted {r}, a datagram encrypted under the timed-out session's keys", t0.elapsed()),
+                                    ));
+                                }
+                            }
+                        }
+                    }
+                    rep.class("after-rehandshake-stale-key-message-not-delivered");
+                    // whatever V answered (a WHOAREYOU) is delivered and ignored by the peer; V's
+                    // challenge then runs out (virtual time) so that the next op starts from rest
+                    if let Some(v) = deliver_all(&mut w, rep, cap).await {
+                        return Some(v);
+                    }
+                    crate::engines::wire_interp::advance(&mut w, Duration::from_millis(REQUEST_TIMEOUT_MS * 5 / 2)).await;
+                    if let Some(v) = deliver_all(&mut w, rep, cap).await {
+                        return Some(v);
+                    }
+                }
                 last_touch.insert(p, Instant::now());
+                if touched_since(&w, ev_before, p) {
+                    last_use.insert(p, opi + 1);
+                    touch_start.insert(p, op_start);
+                } else {
+                    limbo.insert(p);
+                }
             }
+        }
+        if std::env::var_os("VERIF_TRACE").is_some() {
+            let sess: Vec<usize> = w.snaps[0].sessions.iter().filter_map(|s| w.node_by_addr(&s.addr.socket_addr)).collect();
+            eprintln!("[c15] op {opi} {op:?}: log {} datagrams, events {}, V sessions with peers {sess:?}", w.log.len(), w.events.len());
         }
         if let Some(v) = check_capacity(&w, cap) {
             return Some(v);
@@ -238,17 +404,35 @@ impl Property for C15 {
     type Case = Case;
     const ID: &'static str = "C15";
     fn cases(tier: Tier) -> u64 {
-        tier.pick(480, 8_000)
+        tier.pick(1_200, 12_000)
     }
     fn strategy(_tier: Tier) -> BoxedStrategy<Case> {
-        let op = prop_oneof![
-            5 => (0u8..6).prop_map(COp::ExchangeOut),
-            3 => (0u8..6).prop_map(COp::ExchangeIn),
-            3 => (0u8..6, prop_oneof![Just(After::VSubmits), Just(After::PeerSubmits)]).prop_map(|(p, a)| COp::IdleLong(p, a)),
-        ];
-        (2u8..=6, 1u8..=5, any::<bool>(), proptest::collection::vec(op, 2..16))
-            .prop_map(|(n_peers, capacity, short_timeout, ops)| Case { n_peers, capacity, short_timeout, ops })
-            .boxed()
+        let after = || prop_oneof![3 => Just(After::VSubmits), 3 => Just(After::PeerSubmits), 2 => Just(After::VSubmitsThenStale), 2 => Just(After::PeerSubmitsThenStale), 2 => Just(After::VSubmitsHandshakeLost)];
+        let op = || {
+            prop_oneof![
+                5 => (0u8..6).prop_map(COp::ExchangeOut),
+                3 => (0u8..6).prop_map(COp::ExchangeIn),
+                3 => (0u8..6, after()).prop_map(|(p, a)| COp::IdleLong(p, a)),
+            ]
+        };
+        let free = (2u8..=6, 1u8..=5, any::<bool>(), proptest::collection::vec(op(), 2..16))
+            .prop_map(|(n_peers, capacity, short_timeout, ops)| Case { n_peers, capacity, short_timeout, ops });
+        // the cache is filled to its capacity, one of its sessions times out and is re-established,
+        // then peers that have no session yet arrive: who is dropped to make room?
+        let pressure = (1u8..=4, proptest::collection::vec(any::<bool>(), 8), 0u8..4, prop_oneof![1 => Just(After::VSubmits), 1 => Just(After::PeerSubmits), 2 => Just(After::VSubmitsHandshakeLost)], 1u8..=2, proptest::collection::vec(op(), 0..5))
+            .prop_map(|(cap, dirs, which, then, newcomers, tail)| {
+                let n_peers = (cap + newcomers).min(6);
+                let ex = |i: u8, out: bool| if out { COp::ExchangeOut(i) } else { COp::ExchangeIn(i) };
+                // op argument a addresses peer 1 + a % n_peers
+                let mut ops: Vec<COp> = (0..cap).map(|i| ex(i, dirs[i as usize])).collect();
+                ops.push(COp::IdleLong(which % cap, then));
+                for j in 0..newcomers {
+                    ops.push(ex(cap + j, dirs[(4 + j) as usize]));
+                }
+                ops.extend(tail);
+                Case { n_peers, capacity: cap, short_timeout: true, ops }
+            });
+        prop_oneof![3 => free, 1 => pressure].boxed()
     }
     fn run(case: &Case) -> CaseReport {
         let mut rep = CaseReport::default();
